@@ -195,10 +195,20 @@ def main():
                    baseline_off_cmd='cd /repo && /venv/bin/python -m pytest -ra -q -p no:cacheprovider --timeout=900 --continue-on-collection-errors',
                    source_commits=[], add_only=True),
         engines=[
-            dict(name='lean', path='lean/', serves_properties=sorted(CHECKS), kind_free_text='Lean 4 models, theorems, compiled trace-validation driver (drv)'),
-            dict(name='E1-detsched', path='harness/detsched.py', serves_properties=[p for p in sorted(CHECKS)],
-                 kind_free_text='deterministic cooperative scheduler for real Python threads + virtual clock'),
-            dict(name='E2-vloop', path='harness/vloop.py', serves_properties=[p for p in sorted(CHECKS) if p == 'C16'], kind_free_text='virtual-time asyncio event loop (pure-asyncio code; completion order decided by generated durations; exact hang detection)'),
+            dict(name='lean', path='lean/', serves_properties=sorted(CHECKS),
+                 kind_free_text='Lean 4 models, theorems (axiom-audited on every run), compiled trace-validation / differential driver (drv)'),
+            dict(name='E1-detsched', path='harness/detsched.py',
+                 serves_properties=[p for p in sorted(CHECKS) if 'E1' in CHECKS[p]['engine']],
+                 kind_free_text='deterministic cooperative scheduler for real Python threads + virtual clock (harness/cooploop.py: asyncio loops inside managed threads)'),
+            dict(name='E2-vloop', path='harness/vloop.py',
+                 serves_properties=[p for p in sorted(CHECKS) if 'E2' in CHECKS[p]['engine']],
+                 kind_free_text='virtual-time asyncio event loop (pure-asyncio code; completion order decided by generated durations; exact hang detection)'),
+            dict(name='E3-differential', path='harness/core.py',
+                 serves_properties=[p for p in sorted(CHECKS) if 'E3' in CHECKS[p]['engine']],
+                 kind_free_text='plain differential runs: generated cases through the real code in-process and through the compiled Lean definitions, canonicalised outputs compared'),
+            dict(name='E4-processes', path='harness/core.py',
+                 serves_properties=[p for p in sorted(CHECKS) if 'E4' in CHECKS[p]['engine']],
+                 kind_free_text='real OS processes (own session per case, group killed afterwards, explicit hang bounds); OS schedule sampled, history replayed through the model'),
         ],
         checks=checks,
         notes='See DESIGN.md. KNOWN_FINDINGS.txt lists known: and fixed: entries.',
